@@ -257,6 +257,21 @@ func doOp(op Op, run *core.Run) {
 		x4, y4 := c.Double(x1, y1)
 		x5, y5 := c.CombinedMult(x1, y1, k, l)
 		run.Event("p384", "v", bigs(x1, y1), bigs(x2, y2), bigs(x3, y3), bigs(x4, y4), bigs(x5, y5), c.IsOnCurve(x2, y2))
+		// related inputs: Q = k*G for k in {1, 2, 3, (N+1)/2, (N-1)/2, N-1, N-2} and small or
+		// near-order scalars m, n, so that the accumulator of a double-scalar multiplication meets
+		// the very table point it is about to add (the exceptional cases of the addition formulas)
+		N := c.Params().N
+		half := new(big.Int).Rsh(new(big.Int).Add(N, big.NewInt(1)), 1)
+		ks := []*big.Int{big.NewInt(1), big.NewInt(2), big.NewInt(3), half, new(big.Int).Sub(half, big.NewInt(1)), new(big.Int).Sub(N, big.NewInt(1)), new(big.Int).Sub(N, big.NewInt(2))}
+		sc := []*big.Int{big.NewInt(0), big.NewInt(1), big.NewInt(2), big.NewInt(3), new(big.Int).Sub(N, big.NewInt(1)), new(big.Int).Sub(N, big.NewInt(2))}
+		kk := ks[op.N%7]
+		m, n := sc[(op.N/7)%6], sc[(op.N/42)%6]
+		qx, qy := c.ScalarBaseMult(kk.Bytes())
+		rx, ry := c.CombinedMult(qx, qy, m.Bytes(), n.Bytes())
+		ax, ay := c.Add(qx, qy, qx, qy)
+		nx, ny := c.ScalarMult(qx, qy, new(big.Int).Sub(N, big.NewInt(1)).Bytes())
+		zx, zy := c.Add(qx, qy, nx, ny)
+		run.Event("p384", "related", op.N%7, (op.N/7)%6, (op.N/42)%6, bigs(qx, qy), bigs(rx, ry), bigs(ax, ay), bigs(zx, zy))
 	case "csidh":
 		var prv csidh.PrivateKey
 		var pub csidh.PublicKey
